@@ -71,6 +71,21 @@ namespace detail {
 #  define RLBOX_VERIF_YIELD(point, index) (void)0
 #endif
 
+// Verification hook (compiled in only with -DALLENABY_RLBOX_VERIF): reports the
+// accesses to state shared between sandbox instances (the list of live
+// sandboxes), from inside the guarded scopes.
+#ifdef ALLENABY_RLBOX_VERIF
+  inline void (*verif_event_hook)(const char* kind, const void* ptr) = nullptr;
+#  define RLBOX_VERIF_EVENT(kind, ptr)                                         \
+    do {                                                                       \
+      if (::rlbox::detail::verif_event_hook != nullptr) {                      \
+        ::rlbox::detail::verif_event_hook(kind, ptr);                          \
+      }                                                                        \
+    } while (0)
+#else
+#  define RLBOX_VERIF_EVENT(kind, ptr) (void)0
+#endif
+
 #define RLBOX_REQUIRE_SEMI_COLON static_assert(true)
 
 #define if_constexpr_named(varName, ...)                                       \
